@@ -136,6 +136,10 @@ def table_programs():
         if x['want'] == 'ERR' or 'at' in x or x['sig'] in ('6800/JMP ext', '6800/JSR ext'):
             continue          # (jumps and calls must lead into the image: covered by programs())
         yield {'k': 'prog', 'cpu': '6800', 'src': '\torg $100\n%s\n\tswi\n' % x['line'], 'tag': x['line'].strip()}
+    for x in isa.forms_4004():
+        if x['want'] == 'ERR' or 'at' in x or '\n' in x['line'].strip() or x['line'].split()[0] in ('jun', 'jms', 'jcn', 'isz'):
+            continue          # (jumps must lead into the image: covered by programs())
+        yield {'k': 'prog', 'cpu': '4004', 'src': '\torg 256\n%s\n\tnop\n\tbbl 0\n' % x['line'], 'tag': x['line'].strip()}
 
 
 def programs(tier):
@@ -183,7 +187,7 @@ def subspaces(tier):
     for cpu in CPUS:
         subs.append(('a:images-%s' % cpu, images(cpu)))
     subs.append(('b:branch-distance-programs', list(programs(tier))))
-    subs.append(('c:every-6800-instruction-form', list(table_programs())))
+    subs.append(('c:every-6800-and-4004-instruction-form', list(table_programs())))
     return subs
 
 
